@@ -5,6 +5,7 @@ pub(crate) enum MetainfoError {
   Type,
   InfoMissing,
   InfoType,
+  ContentSize,
 }
 
 impl MetainfoError {
@@ -13,6 +14,7 @@ impl MetainfoError {
       Self::Type => "Top-level value not dictionary",
       Self::InfoMissing => "Dictionary missing info key",
       Self::InfoType => "Info value not dictionary",
+      Self::ContentSize => "Sum of file lengths does not fit in 64 bits",
     }
   }
 }
